@@ -216,3 +216,39 @@ Proof.
     apply (proj2 (proj2 (m_bitmap_content S m))). lia.
   - rewrite Hnp. replace (i <? 2) with false by lia. reflexivity.
 Qed.
+
+(* ---------------- a fixed (non-expanding) bitmap ---------------- *)
+Lemma set_bits_inv_fixed b : bm_auto b = false ->
+  forall ids bm S bm', (forall m, bm_isset bm m = zmem m S) -> set_bits b ids bm = (bm', Ok tt) ->
+  zlen bm' = zlen bm /\ forall m, bm_isset bm' m = zmem m (filter (fun id => negb (id <? 2)) ids ++ S).
+Proof.
+  intros Ha. assert (Hpb : forall id, bm_is_presence_bit b id = false) by (intros id; unfold bm_is_presence_bit; rewrite Ha; reflexivity).
+  induction ids as [|id rest IH]; intros bm S bm' Hbits H; cbn [set_bits] in H.
+  - assert (bm' = bm) by congruence. subst. split; [reflexivity|exact Hbits].
+  - cbn [filter]. rewrite Hpb, orb_false_r in H. destruct (id <? 2) eqn:E2; cbn [negb].
+    + apply (IH _ _ _ Hbits H).
+    + destruct (Z_le_gt_dec id (zlen bm * 8)) as [Lin|Lout].
+      * destruct (bm_set_inside b bm id ltac:(lia)) as (d & Hd & Hld & Hdb). rewrite Hd in H.
+        destruct (negb (bm_isset d id)); [discriminate|].
+        destruct (IH d (id :: S) bm') as (Hl & Hb); [|exact H|].
+        { intros m. rewrite Hdb, Hbits. cbn [zmem existsb]. reflexivity. }
+        split; [lia|]. intros m. rewrite Hb. unfold zmem. rewrite !existsb_app. cbn [existsb].
+        destruct (existsb (Z.eqb m) (filter _ rest)), (m =? id), (existsb (Z.eqb m) S); reflexivity.
+      * rewrite (bm_set_fixed_noop b bm id Ha) in H by lia. rewrite isset_out in H by lia. discriminate.
+Qed.
+
+Theorem m_pack_bitmap_agrees_fixed S m m' b : bm_auto (ms_bm S) = false -> 0 <= bm_len (ms_bm S) ->
+  m_pack S m = (m', Ok b) ->
+  zlen (m_bm m') = bm_len (ms_bm S) /\ forall i, 2 <= i -> bm_isset (m_bm m') i = zmem i (m_present m).
+Proof.
+  intros Ha HB0 Hp. unfold m_pack in Hp.
+  destruct (set_bits (ms_bm S) (packable_ids (m_bitmap S m)) (bm_new (ms_bm S))) as [bm [u|e|p|]] eqn:Es; try (inversion Hp; fail).
+  assert (m' = with_bm (m_bitmap S m) bm) by congruence. subst m'. cbn [m_bm with_bm]. destruct u.
+  destruct (set_bits_inv_fixed (ms_bm S) Ha _ _ [] _ (fun k => isset_zeros _ k) Es) as (Hl & Hb).
+  split.
+  - rewrite Hl. unfold bm_new. rewrite zlen_repeat. lia.
+  - intros i Hi. rewrite Hb, app_nil_r. rewrite zmem_filter by (replace (i <? 2) with false by lia; reflexivity).
+    unfold packable_ids. rewrite <- (zmem_perm i _ _ (sort_z_is_perm _)). cbn [zmem existsb]. replace (i =? 1) with false by lia. cbn [orb].
+    fold (zmem i (zremove 1 (m_present (m_bitmap S m)))). rewrite zmem_zremove by lia.
+    apply (proj2 (proj2 (m_bitmap_content S m))). lia.
+Qed.
